@@ -12,7 +12,7 @@ import math
 import numpy as np
 import torch
 
-from ..kernel import World, stream
+from ..kernel import World, stream, scribble
 from ..models.record import size_formula
 
 DTS = [1.0, 0.5, 0.25, 2.0, 0.1, 1.3]
@@ -290,10 +290,13 @@ class ReducerWorld(World):
                 else:
                     args = (obs,) if cond is None else (obs, cond)
                     with ctx.impl("observe", facts):
-                        red(*args)
-                        twin(*args)
+                        given = [[a.clone() for a in args] for _ in range(3)]
+                        red(*given[0])
+                        twin(*given[1])
                         if fresh is not None:
-                            fresh(*args)
+                            fresh(*given[2])
+                    if len(model.obs) % 2 == 0:
+                        scribble(ctx, [t for g in given for t in g])
                     with ctx.impl("peek", facts):
                         got = red.peek()
                         got_t = twin.peek()
